@@ -70,7 +70,7 @@ def glyph_pieces(font, gs, name):
                 t = getattr(comp, "transform", None)
                 M = geom.aff(t[0][0], t[0][1], t[1][0], t[1][1], comp.x, comp.y) if t is not None else geom.translate(comp.x, comp.y)
                 R = max([np.abs(np.vstack(cs)).max()] if cs else [0]) + 1
-                pieces.append({"contours": [geom.apply(M, c) for c in cs], "sigma": max(1.0, geom.sigma_max(M)), "err": (2 ** -14) * R * 2 if t is not None else 0.0, "transformed": t is not None or comp.x != 0 or comp.y != 0, "ref": comp.glyphName})
+                pieces.append({"contours": [geom.apply(M, c) for c in cs], "sigma": max(1.0, geom.sigma_max(M)), "err": 0.7072 + ((2 ** -14) * R * 2 if t is not None else 0.0), "transformed": t is not None or comp.x != 0 or comp.y != 0, "ref": comp.glyphName})
             return pieces
     cs = geom.flatten_glyph(gs, name, 0.01)
     if cs:
